@@ -535,6 +535,20 @@ fn fold_constraint_set(
         }
     };
     match (&set.base, &folded_operant) {
+        // `SIZE (a) EXCEPT x` / `FROM (a) EXCEPT x`: the excepted part is ignored, the base
+        // stays the base (the arm below would unwrap it into the operand position)
+        (
+            SubtypeElements::PermittedAlphabet(elem_or_set)
+            | SubtypeElements::SizeConstraint(elem_or_set),
+            Some(_),
+        ) if set.operator == SetOperator::Except => {
+            return match &**elem_or_set {
+                ElementOrSetOperation::Element(e) => Ok(Some(e.clone())),
+                ElementOrSetOperation::SetOperation(s) => {
+                    fold_constraint_set(s, char_set, range_constraint)
+                }
+            }
+        }
         (base, Some(SubtypeElements::PermittedAlphabet(elem_or_set)))
         | (SubtypeElements::PermittedAlphabet(elem_or_set), Some(base))
         | (base, Some(SubtypeElements::SizeConstraint(elem_or_set)))
